@@ -12,12 +12,13 @@ namespace {
 template <class PT> PT mkp(const V3& a) { PT p = PT::Zero(); for (int i = 0; i < PointTraits<PT>::DIM; ++i) p[i] = (typename PT::Scalar)a[i]; if (PointTraits<PT>::SIZE > PointTraits<PT>::DIM) p[PointTraits<PT>::SIZE - 1] = 1; return p; }
 template <class PT> V3 tov(const PT& p) { V3 v = V3::Zero(); for (int i = 0; i < PointTraits<PT>::DIM; ++i) v[i] = p[i]; return v; }
 
-template <class PT> void run_set(vf::Ctx& c, const char* tname, const regref::Set& set, bool th) {
+template <class PT> void run_set(vf::Ctx& c, const char* tname, const regref::Set& set, bool th, bool fewRotations = false) {
   using S = typename PT::Scalar; constexpr int DIM = PointTraits<PT>::DIM;
   using H = Eigen::Matrix<S, DIM + 1, DIM + 1>;
   LD eps = std::numeric_limits<S>::epsilon();
   const bool dbl = std::is_same<S, double>::value;
   auto rots = regref::rotations(DIM, th ? 2 : 1);
+  if (fewRotations) { auto all = regref::rotations(DIM, 1); rots = {all[3], all[all.size() - 5]}; }   // the every-size sweep: two rotations
   std::vector<V3> trans = {V3(0, 0, 0), V3(0.3, -1.2, DIM == 3 ? 2 : 0), V3(1e3, -1e3, DIM == 3 ? 10 : 0)};
   size_t n = set.pts.size();
   FindRigidTransformationBySVD<PT> reusedEstimator, assignedEstimator;   // one estimator object serves every problem of this set as well; another one is overwritten by it each time
@@ -35,7 +36,7 @@ template <class PT> void run_set(vf::Ctx& c, const char* tname, const regref::Se
       std::vector<Correspondence> cor; PointSet<PT> tgtUse = tgt;
       if (cm == 0) for (size_t i = 0; i < n; ++i) cor.emplace_back(i, i);
       else if (cm == 1) for (size_t i = n; i-- > 0;) cor.emplace_back(i, i);
-      else if (cm == 2) { for (size_t i = 0; i < n; ++i) { size_t j = (7 * i + 3) % n; cor.emplace_back(j, j); } std::sort(cor.begin(), cor.end(), [](const Correspondence& a, const Correspondence& b) { return (a.sourcePointIndex * 2654435761u) % 1000003 < (b.sourcePointIndex * 2654435761u) % 1000003; }); cor.erase(std::unique(cor.begin(), cor.end(), [](const Correspondence& a, const Correspondence& b) { return a.sourcePointIndex == b.sourcePointIndex; }), cor.end()); }
+      else if (cm == 2) { for (size_t i = 0; i < n; ++i) { size_t j = (7 * i + 3) % n; cor.emplace_back(j, j); } std::sort(cor.begin(), cor.end(), [](const Correspondence& a, const Correspondence& b) { return (a.sourcePointIndex * 2654435761u) % 1000003 < (b.sourcePointIndex * 2654435761u) % 1000003; }); cor.erase(std::unique(cor.begin(), cor.end(), [](const Correspondence& a, const Correspondence& b) { return a.sourcePointIndex == b.sourcePointIndex; }), cor.end()); if (cor.size() < 3) continue; }   // n a multiple of 7: the map 7i+3 mod n is not a bijection
       else if (cm == 3) { for (size_t i = 0; i < n; i += 2) cor.emplace_back(i, i); if (cor.size() < 3) continue; }
       else if (cm == 5) {   // target stored permuted AND only part of the matches, in shuffled order (the shape of ICP matching output)
         bool bij = true; { std::vector<int> seen(n, 0); for (size_t i = 0; i < n; ++i) if (seen[(i * 5 + 1) % n]++) bij = false; } if (!bij) continue;
@@ -119,21 +120,35 @@ void init() { if (g2.empty()) { g2 = regref::catalogue(2); g3 = regref::catalogu
 
 }  // namespace
 
-uint64_t vf_ncases(const std::string& tier) { init(); return 4 * g2.size() + 4 * g3.size(); }
+const int kSizeBlocks = 10;   // every point count 3..500 in blocks of 50
+uint64_t vf_ncases(const std::string& tier) { init(); return 4 * g2.size() + 4 * g3.size() + 8 * kSizeBlocks; }
+
+template <class PT> void every_size(vf::Ctx& c, const char* tname, int dim, int block) {
+  const regref::Set& full = (dim == 2 ? g2 : g3).back();   // "scattered 500 over 20 m"
+  for (int n = std::max(3, 50 * block + 1); n <= std::min(500, 50 * (block + 1)); ++n) {
+    regref::Set sub; sub.name = "first " + std::to_string(n) + " of " + full.name; sub.coplanar = false; sub.pts.assign(full.pts.begin(), full.pts.begin() + n);
+    run_set<PT>(c, tname, sub, false, true);
+  }
+}
 
 void vf_run(uint64_t idx, const std::string& tier, vf::Ctx& c) {
   init();
+  if (idx >= 4 * g2.size() + 4 * g3.size()) { int k = (int)(idx - 4 * g2.size() - 4 * g3.size()), t = k / kSizeBlocks, b = k % kSizeBlocks;
+    switch (t) { case 0: every_size<Eigen::Vector2d>(c, kTypes[0], 2, b); break; case 1: every_size<Eigen::Vector2f>(c, kTypes[1], 2, b); break; case 2: every_size<HomogeneousCoordinates2d>(c, kTypes[2], 2, b); break; case 3: every_size<HomogeneousCoordinates2f>(c, kTypes[3], 2, b); break;
+      case 4: every_size<Eigen::Vector3d>(c, kTypes[4], 3, b); break; case 5: every_size<Eigen::Vector3f>(c, kTypes[5], 3, b); break; case 6: every_size<HomogeneousCoordinates3d>(c, kTypes[6], 3, b); break; default: every_size<HomogeneousCoordinates3f>(c, kTypes[7], 3, b); }
+    return; }
   if (idx < 4 * g2.size()) { int t = idx / g2.size(); const auto& s = g2[idx % g2.size()];
     switch (t) { case 0: run_set<Eigen::Vector2d>(c, kTypes[0], s, tier == "thorough"); break; case 1: run_set<Eigen::Vector2f>(c, kTypes[1], s, tier == "thorough"); break; case 2: run_set<HomogeneousCoordinates2d>(c, kTypes[2], s, tier == "thorough"); break; default: run_set<HomogeneousCoordinates2f>(c, kTypes[3], s, tier == "thorough"); } }
   else { uint64_t r = idx - 4 * g2.size(); int t = r / g3.size(); const auto& s = g3[r % g3.size()];
     switch (t) { case 0: run_set<Eigen::Vector3d>(c, kTypes[4], s, tier == "thorough"); break; case 1: run_set<Eigen::Vector3f>(c, kTypes[5], s, tier == "thorough"); break; case 2: run_set<HomogeneousCoordinates3d>(c, kTypes[6], s, tier == "thorough"); break; default: run_set<HomogeneousCoordinates3f>(c, kTypes[7], s, tier == "thorough"); } }
 }
 
-std::string vf_case_params(uint64_t idx, const std::string& tier) { init(); bool is2 = idx < 4 * g2.size(); uint64_t r = is2 ? idx : idx - 4 * g2.size(); const auto& g = is2 ? g2 : g3; return vf::JO().u("case", idx).str("type", kTypes[(is2 ? 0 : 4) + r / g.size()]).str("set", g[r % g.size()].name).done(); }
+std::string vf_case_params(uint64_t idx, const std::string& tier) { init(); if (idx >= 4 * g2.size() + 4 * g3.size()) { int k = (int)(idx - 4 * g2.size() - 4 * g3.size()); return vf::JO().u("case", idx).str("explorer", "every size").str("type", kTypes[k / kSizeBlocks]).i("block_of_50", k % kSizeBlocks).done(); } bool is2 = idx < 4 * g2.size(); uint64_t r = is2 ? idx : idx - 4 * g2.size(); const auto& g = is2 ? g2 : g3; return vf::JO().u("case", idx).str("type", kTypes[(is2 ? 0 : 4) + r / g.size()]).str("set", g[r % g.size()].name).done(); }
 
 std::string vf_describe(const std::string& tier) {
   init(); vf::JO o; std::vector<std::string> a, b; for (auto& s : g2) a.push_back(s.name); for (auto& s : g3) b.push_back(s.name);
   o.strs("sets_2d", a).strs("sets_3d", b);
+  o.str("every_size", "every point count from 3 to 500 (first n points of the scattered set), two rotations, all translations / perturbations / correspondence modes / overloads / scales, 8 point types");
   o.str("rotations", std::string("2D: {0,+-1e-6,+-0.1,+-pi/2,+-(pi-1e-6),pi} + 71 angles every 5 deg; 3D: 6 axes x {0,1e-6,0.1,pi/2,pi-1e-6,pi} + 8 axes x {1e-3,0.5,1,2,2.5,3,pi-1e-3,pi-1e-9}") + (tier == "thorough" ? "; plus 2D every 0.5 deg (720 angles) and 3D 24 Halton axes x 16 angles up to pi-1e-4" : "") + "; perturbed data on every rotation");
   o.str("translations", "0, (0.3,-1.2,2), (1e3,-1e3,10)");
   o.str("correspondences", "identity, reversed, shuffled order, every other (subset), target stored permuted, subset of a permuted target in reversed order; in the subset modes the points no correspondence refers to are NaN; in two modes the records carry matcher-like distance and weight fields");
